@@ -6,6 +6,8 @@ import (
 	"time"
 
 	"github.com/biscuit-auth/biscuit-go/v2/datalog"
+	"github.com/biscuit-auth/biscuit-go/v2/pb"
+	"google.golang.org/protobuf/proto"
 )
 
 func gSwapAtoms(a []gAtom) []gAtom {
@@ -356,4 +358,72 @@ func VerifC12TwinRules() {
 	if !ab.qerr && !ba.qerr {
 		vAssert(gSetEq(ab.facts, ba.facts), "C12.twin-rules-same-derived-facts")
 	}
+}
+
+// VerifC18Malformed: a snapshot whose content does not hang together -- a constant that is a symbol index
+// no table resolves, a symbol table that repeats an entry or restates a default symbol (every later index
+// then shifts) -- is malformed and must be refused, not given whatever meaning the loading authorizer's
+// own strings lend it.
+func VerifC18Malformed() {
+	vForbidPanic("C18")
+	vTimerMode(0)
+	ver := uint32(3)
+	kind := pb.Policy_Allow
+	p0 := uint64(1024)
+	str := uint64(1025)
+	syms := []string{"p", "alice"}
+	wellFormed := false
+	switch vChoose("defect", 5) {
+	case 0:
+		vLabel("well-formed")
+		wellFormed = true
+	case 1:
+		vLabel("dangling index in a fact")
+		d := vUint64("dangling")
+		vAssume(vAnd(d >= 1026, d <= 1030))
+		str = d
+	case 2:
+		vLabel("repeated symbol")
+		syms = []string{"p", "alice", "alice", "bob"}
+		str = 1027
+	case 3:
+		vLabel("default symbol restated")
+		syms = []string{"p", "read", "bob"}
+		str = 1026
+	default:
+		vLabel("index in the gap of the default table")
+		d := vUint64("gap")
+		vAssume(vAnd(d >= 28, d < 1024))
+		str = d
+	}
+	term := &pb.TermV2{Content: &pb.TermV2_String_{String_: str}}
+	pred := &pb.PredicateV2{Name: &p0, Terms: []*pb.TermV2{term}}
+	ap := &pb.AuthorizerPolicies{Symbols: syms, Version: &ver}
+	where := vChoose("where", 3)
+	good := &pb.PredicateV2{Name: &p0, Terms: []*pb.TermV2{{Content: &pb.TermV2_Integer{Integer: 1}}}}
+	switch where {
+	case 0:
+		ap.Facts = []*pb.FactV2{{Predicate: pred}}
+	case 1:
+		ap.Checks = []*pb.CheckV2{{Queries: []*pb.RuleV2{{Head: good, Body: []*pb.PredicateV2{pred}}}}}
+	default:
+		ap.Policies = []*pb.Policy{{Kind: &kind, Queries: []*pb.RuleV2{{Head: good, Body: []*pb.PredicateV2{pred}}}}}
+	}
+	data, err := proto.Marshal(ap)
+	if err != nil {
+		return
+	}
+	g := gBuildToken(gBlock{facts: []gAtom{{name: "a", c: 1}}}, nil)
+	a, err := NewVerifier(g.tok, gPatient)
+	if err != nil {
+		return
+	}
+	lerr := a.LoadPolicies(data)
+	vCover("loaded")
+	if wellFormed {
+		vAssert(lerr == nil, "C18.well-formed-accepted")
+		vCover("accepted")
+		return
+	}
+	vAssert(lerr != nil, "C18.malformed-rejected")
 }
